@@ -513,8 +513,8 @@ v("c18-pandas-limit-before-sort", "C18", PB,
 v("c18-sql-limit-before-order", "C18", SM,
   "        suffix: List[str] = []\n        if len(order_node.order_columns) > 0:", "        suffix: List[str] = []\n        if order_node.limit is not None:\n            suffix = suffix + [\"LIMIT \" + order_node.limit.__repr__()]\n        if len(order_node.order_columns) > 0:")
 v("c18-polars-flags-over-reverse", "C18", "polars_model.py",
-  "            True if ci in set(op.reverse) else False for ci in op.order_columns\n        ]\n        res = res.sort(by=op.order_columns, descending=reversed_cols)",
-  "            True for ci in op.reverse\n        ]\n        res = res.sort(by=op.order_columns, descending=reversed_cols)")
+  "            True if ci in set(op.reverse) else False for ci in op.order_columns\n        ]\n        res = res.sort(\n",
+  "            True for ci in op.reverse\n        ]\n        res = res.sort(\n")
 v("c18-twin-reset-index", "C18", PB, "        res = self.clean_copy(res.loc[selection, :])\n        return res", "        res = res.loc[selection, :].reset_index(drop=True)\n        return res", expect="silent")
 v("c18-twin-redundant-clean-copy-removed", "C18", PB,
   "            res = self.clean_copy(res.iloc[range(op.limit), :])", "            res = res.iloc[range(op.limit), :]", expect="silent")
